@@ -598,7 +598,7 @@ pub fn add_shape(t: &mut Tape, a: &Alphabet, p: &Profile, out: &mut Vec<MQuad>) 
         _ => None,
     };
     let bn = |i: usize| MTerm::Bnode(a.bnodes[i % a.bnodes.len()].clone());
-    let kind = t.below(10);
+    let kind = t.below(11);
     match kind {
         0 => {
             // well-formed list of n items hanging off a subject
@@ -681,6 +681,45 @@ pub fn add_shape(t: &mut Tape, a: &Alphabet, p: &Profile, out: &mut Vec<MQuad>) 
             };
             out.push(([s, pr, o], g.clone()));
             "nil_positions"
+        }
+        10 => {
+            // compound literal (JSON-LD rdfDirection=compound-literal): a blank node carrying
+            // rdf:value, rdf:direction and possibly rdf:language; well-formed or slightly off,
+            // referenced 0..2 times, possibly with one more property
+            let b = bn(0);
+            let plain = |x: &str| MTerm::Lit(x.to_string(), XSD_STRING.to_string());
+            let value = match t.below(4) {
+                0 => a.literal(t),
+                1 => plain(""),
+                _ => plain("v"),
+            };
+            let dir = match t.below(6) {
+                0 => plain(""),
+                1 => plain("LTR"),
+                2 => MTerm::Lang("ltr".into(), "en".into()),
+                3 => plain("rtl"),
+                _ => plain("ltr"),
+            };
+            out.push(([b.clone(), rdf("value"), value], g.clone()));
+            out.push(([b.clone(), rdf("direction"), dir], g.clone()));
+            match t.below(5) {
+                0 => out.push(([b.clone(), rdf("language"), plain("en-US")], g.clone())),
+                1 => out.push(([b.clone(), rdf("language"), plain("not a tag")], g.clone())),
+                2 => out.push(([b.clone(), rdf("language"), plain("fr")], g.clone())),
+                _ => {}
+            }
+            if t.chance(1, 6) {
+                out.push(([b.clone(), a.iri(t), a.literal(t)], g.clone()));
+            }
+            for _ in 0..t.below(3) {
+                out.push(([a.iri(t), a.iri(t), b.clone()], g.clone()));
+            }
+            if t.chance(1, 8) {
+                // also referenced from another graph
+                let g2 = a.graphs[t.below(a.graphs.len())].clone();
+                out.push(([a.iri(t), a.iri(t), b.clone()], g2));
+            }
+            "compound_literal"
         }
         9 => {
             // concatenation-ambiguous names: IRIs A, A+B, B+C, C used pairwise so that the
